@@ -48,6 +48,17 @@ def run_the_case(p):
         dom = O.make_domain(rng, p.get('n', 3))
         cond = O.gen_cond(rng, 1, p.get('depth', 2), vocab=tuple(p.get('vocab', ('cmp', 'name', 'truth', 'contains'))),
                           neg=True, nested_neg=True)
+        if p.get('distinct_sizes'):
+            # sizes 0..n-1 in random order and a threshold condition: the three cases 0 / 1 / >= 2 solutions are all
+            # frequent, and the unique solution is rarely the last object of the domain
+            sizes = list(range(len(dom)))
+            rng.shuffle(sizes)
+            for o, z in zip(dom, sizes):
+                o.size = z
+            lim = rng.choice([len(dom) - 2, len(dom) - 2, len(dom) - 1, len(dom) - 3])
+            leaf = rng.choice([('pred_cls', 0, lim), ('pred_fn', 0, lim), ('cmp', 'gt', ('attr', 0, 'size'), ('lit', lim))]
+                              if 'pred' in p.get('vocab', ()) else [('cmp', 'gt', ('attr', 0, 'size'), ('lit', lim))])
+            cond = leaf if rng.random() < 0.6 else ('and', leaf, ('cmp', 'ge', ('attr', 0, 'size'), ('lit', 0)))
     sat = [o for o in dom if O.holds(cond, {0: o})]
     want = ('value', id(sat[0])) if len(sat) == 1 else (('none',) if not sat else ('multiple',))
     try:
